@@ -4,6 +4,8 @@ CONSTANTS MaxFds = 253
   DescB = 43
   CarryDesc = TRUE
   CloseOnReject = TRUE
+  RejectCtrunc = TRUE
+  AbsorbDesc = TRUE
 SPECIFICATION TSpec
 INVARIANTS InOrder Whole LedgerBalanced
 CONSTRAINT Mark
